@@ -9,7 +9,7 @@
    End-to-end (decided on every run by the spec-side renderer on the implementation): the
    converted document composites to the source's colour at every usable sample point. *)
 From Coq Require Import ZArith Reals Lra List Bool Ascii String.
-From Pico Require Import Num PyStr Lex G_inherit Inherit Composite E5_cascade.
+From Pico Require Import Num PyStr Lex G_inherit Inherit Composite E5_cascade ObjCache G_skeletons Writeback E5_writeback.
 Import ListNotations.
 Local Open Scope R_scope.
 
@@ -53,6 +53,34 @@ Example C05_table_copy_properties :
   handler_of "opacity" = Some HMultiply /\ handler_of "display" = Some HDisplay.
 Proof. vm_compute. repeat split. Qed.
 
+(* write-back: a cached shape written to its element (to_element omits a value equal to the one the context supplies)
+   and read again (from_element) gives the same field in the context it was written in; read in ANOTHER context
+   an omitted own value is replaced by that context's - so no cached shape may be written back before <use> is
+   instantiated (which moves a copy of the target into the context of the referencing element). *)
+Theorem C05_writeback_roundtrip_in_context inh default k v :
+  blank v = false -> read_field inh default k (write_field inh default k v) = v.
+Proof. exact (read_write_same_context inh default k v). Qed.
+
+Theorem C05_written_value_is_context_bound inh inh' default k v iv' :
+  sget inh k = Some v -> sget inh' k = Some iv' -> blank iv' = false ->
+  read_field inh' default k (write_field inh default k v) = iv'.
+Proof. exact (written_value_is_context_bound inh inh' default k v iv'). Qed.
+
+Theorem C05_differing_value_survives_a_move inh inh' default k v iv :
+  sget inh k = Some iv -> v <> iv -> blank v = false ->
+  read_field inh' default k (write_field inh default k v) = v.
+Proof. exact (differing_value_survives inh inh' default k v iv). Qed.
+
+(* the skeleton of topicosvg regenerated from svg.py: on a freshly parsed object (no cached shapes) no path writes cached
+   shapes back before the tree mutation of resolve_use *)
+Theorem C05_use_instantiated_before_any_writeback :
+  match sole_mutation sk_resolve_use with
+  | Some n => wb_before n (Some false) sk_topicosvg = false
+  | None => False
+  end.
+Proof. vm_compute. reflexivity. Qed.
+
 Definition C05_all := (C05_over_is_associative, C05_opaque_group_flattens, C05_transparent_group_vanishes, C05_single_child_group_flattens,
-  C05_opacity_multiplies, C05_copied_property_resolves_to_own_else_context, C05_handlers_touch_only_their_attribute, C05_table_copy_properties).
+  C05_opacity_multiplies, C05_copied_property_resolves_to_own_else_context, C05_handlers_touch_only_their_attribute, C05_table_copy_properties,
+  C05_writeback_roundtrip_in_context, C05_written_value_is_context_bound, C05_differing_value_survives_a_move, C05_use_instantiated_before_any_writeback).
 Print Assumptions C05_all.
